@@ -26,10 +26,12 @@ PROGRAMS = [
     "(1, 0, 2) 10 swap div", "dup dup add mul",
 ]
 DW_PROGRAMS = [
+    "entry parent offset", "[entry] relem parent offset", "entry (|E| E parent (|P| P child (== E))) offset", "unit (|U| U entry parent offset)",
     "entry offset", "entry ?root name", "unit root child label", "entry (|E| [E child] length)", "entry attribute label",
     "entry ?(child) (|A| A child offset)", "[entry] length", "entry parent* offset", "symbol name", "entry @AT_name",
 ]
 INPUTS = ["1", "3", "7 2"]
+DW_INPUTS = ["", "", ""]          # the Dwarf value alone (three separately opened values; each may be reused)
 OTHERS = ["1 2 3 `[7]", "1 2 3 ``[7]", "(1, 2)*", "let X := 5; X", '"%( 1, 2 %)"', "1 2 3 4 ```[]", "{1} apply"]
 
 
@@ -37,9 +39,10 @@ def hexs(s):
     return s.encode().hex()
 
 
-def gen_history(rng, n_sets, n_stacks, length):
+def gen_history(rng, n_sets, n_stacks, length, inputs=None):
     """random well-formed history; returns token list and, per result set, (query A/B, stack id)"""
-    toks = ["s%d=%s" % (j, hexs(INPUTS[j])) for j in range(n_stacks)]
+    inputs = inputs or INPUTS
+    toks = ["s%d=%s" % (j, hexs(inputs[j])) for j in range(n_stacks)]
     live, info = [], {}
     nxt = 0
     for _ in range(length):
@@ -96,12 +99,12 @@ def run(ctx):
     progs = [(p, None) for p in PROGRAMS]
     g = zgen.G(ctx.sub_rng("gen"), max_depth=2, illtyped=0.02)
     progs += [(g.program(), None) for _ in range(40 if quick else 400)]
-    progs += [(p, rng.choice(files)) for p in DW_PROGRAMS]
+    progs += [(p, f) for p in DW_PROGRAMS for f in (files if not quick else rng.sample(files, 2))]
 
     # fresh runs: every (program, input) in its own process
     fresh_lines, fresh_key = [], []
     for p, f in progs:
-        for j, inp in enumerate(INPUTS):
+        for j, inp in enumerate(INPUTS if f is None else DW_INPUTS):
             fresh_lines.append(zw.enc(p, inq=inp, dw=f, t=5, max=300))
             fresh_key.append((p, f, j))
     fresh = zw.run_cases(fresh_lines, chunk=1)
@@ -112,7 +115,7 @@ def run(ctx):
     hist_lines, meta = [], []
     for p, f in progs:
         for _ in range(3 if quick else 12):
-            toks, info = gen_history(rng, 3, 3, rng.choice([6, 10, 16, 30]))
+            toks, info = gen_history(rng, 3, 3, rng.choice([6, 10, 16, 30, 60]), None if f is None else DW_INPUTS)
             hist_lines.append(zw.enc(p, m="hist", script=",".join(toks), dw=f, t=10))
             meta.append((p, f, toks, info))
     # histories run many per process (so that statics / caches survive from one to the next)
@@ -172,8 +175,8 @@ def run(ctx):
                 viol += 1
                 if viol <= 6:
                     ctx.violation("`%s` (compiled as %s) on input `%s`: pull %d of result set %d gives %s, a fresh run gives %s" %
-                                  (p, ab.upper(), INPUTS[sj], bad[0], k, str(bad[1])[:160], str(bad[2])[:160]),
-                                  {"query": p, "script": toks, "file": f, "input": INPUTS[sj], "result_set": k})
+                                  (p, ab.upper(), (INPUTS if f is None else DW_INPUTS)[sj], bad[0], k, str(bad[1])[:160], str(bad[2])[:160]),
+                                  {"query": p, "script": toks, "file": f, "input": (INPUTS if f is None else DW_INPUTS)[sj], "result_set": k})
         if len(samples) < 3:
             samples.append({"query": p, "script": ",".join(toks)[:300]})
 
